@@ -331,6 +331,19 @@ def analyse_unit(name, canary=False, rlimit=None, seed=None):
             for (ln, oid) in cls:
                 if ln <= f["line"]:
                     target = oid
+        if target is None and f["msg"].startswith("precondition not satisfied"):
+            # tags on the failed `requires` line of the callee decide which property the call site breaks
+            tags = []
+            for (ln, label) in f["spans"]:
+                if label and "failed precondition" in label and 0 < ln <= len(lines):
+                    tags += re.findall(r"#(C\d+)", lines[ln - 1])
+                    f["requires_line"] = lines[ln - 1].strip()
+            if tags:
+                target = f"{name}::{key}::requires[{','.join(sorted(set(tags)))}]"
+                if target not in obls:
+                    obls[target] = {"id": target, "fn": key, "kind": "body", "props": sorted(set(tags)),
+                                    "text": "call site must establish: " + f.get("requires_line", ""), "src": obls.get(f"{name}::{key}::body", {}).get("src", ""),
+                                    "status": "discharged"}
         if target is None:
             target = f"{name}::{key}::body"
         if target not in obls:
